@@ -319,7 +319,7 @@ def _span():
 
 class SimAdapter:
     cls = "sim"
-    spawn_kinds = ("copy", "pickle", "dill", "portable")
+    spawn_kinds = ("copy", "pickle", "dill", "portable", "deepcopy", "pickle_bytes", "dill_bytes")
     file_kinds = ("save", "save_pickle", "to_pickle_file", "to_dill_file", "to_portable_file", "save_dill")
 
     def build(self, tname):
@@ -479,6 +479,25 @@ class SimAdapter:
                 out["acov"] = byv([[arr(x) for x in v] for v in ac])
             except Exception as e:
                 out["acov"] = "EXC:" + type(e).__name__
+        # further derived views of the same state, each through its own public getter
+        def view(key, thunk):
+            try:
+                out[key] = thunk()
+            except Exception as e:
+                out[key] = "EXC:" + type(e).__name__
+        view("cov_u", lambda: byv([arr(x) for x in m.get_cov_transition_shocks(unpack_singleton=False)]))
+        view("cov_w", lambda: byv([arr(x) for x in m.get_cov_measurement_shocks(unpack_singleton=False)]))
+        view("initials", lambda: [str(x) for x in m.get_initials()])
+        view("eigenvalues", lambda: byv([[fl(x) for x in v] for v in m.get_eigenvalues(unpack_singleton=False)]))
+        view("stability", lambda: byv([[str(x) for x in v] for v in m.get_eigenvalues_stability(unpack_singleton=False)]))
+        view("variable_stability", lambda: byv([{k: str(x) for k, x in v.items()} for v in m.get_variable_stability(unpack_singleton=False)]))
+        view("steady_pairs", lambda: {n: byv([[fl(a), fl(b)] for a, b in v]) for n, v in m.get_steady(unpack_singleton=False).items()})
+        view("log_status", lambda: {k: bool(v) for k, v in dict(m.get_log_status()).items()})
+        # variant by variant: which equations the assigned steady state fails and by how much
+        view("check_steady", lambda: byv([{"failed": list(i["failed_equations"]), "discrepancies": arr(i["discrepancies"])}
+                                          for i in quiet(lambda: m.check_steady(when_fails="silent", return_info=True, unpack_singleton=False))[1]]))
+        if t["shocks"]:
+            view("acorr", lambda: byv([[arr(x) for x in v] for v in m.get_acorr(up_to_order=1, unpack_singleton=False)]))
         if tname == "nonlin" and sim is not None:
             try:
                 db = ir.Databox.steady(m, span)
@@ -545,7 +564,7 @@ class SimAdapter:
 
 class SeqAdapter:
     cls = "seq"
-    spawn_kinds = ("copy", "dill")
+    spawn_kinds = ("copy", "dill", "deepcopy")
     file_kinds = ("save", "save_dill")
 
     def build(self, tname):
@@ -721,6 +740,10 @@ class VarAdapter:
                 a = np.asarray(s.get_data(span), dtype=float)
                 return byv([a[:, min(k, a.shape[1] - 1)].tolist() for k in range(nv)])
             out["sim"] = {n: cols(sim[n]) for n in names}
+            # the same simulation in deviations from the mean and without the residuals of the data
+            simd = quiet(lambda: m.simulate(db, span, deviation=True, residuals_from_data=False))
+            simd = simd[0] if isinstance(simd, tuple) else simd
+            out["sim_dev"] = {n: (lambda a: byv([a[:, min(k, a.shape[1] - 1)].tolist() for k in range(nv)]))(np.asarray(simd[n].get_data(span), dtype=float)) for n in names}
         except Exception as e:
             out["sim"] = "EXC:" + type(e).__name__
         return out
@@ -728,6 +751,15 @@ class VarAdapter:
     def read(self, m, tname, r):
         if r["k"] == "view":
             m.get_variant(r.get("v", 0) % m.num_variants).get_mean()
+            return
+        if r["k"] == "simulate":
+            ir = _irispie()
+            db = self.dataset(list(m.get_endogenous_names()), 11)
+            span = (ir.qq(2000, 1) + 44) >> (ir.qq(2000, 1) + 47)
+            try:
+                quiet(lambda: m.simulate(db, span, deviation=bool(r.get("deviation")), residuals_from_data=bool(r.get("ant"))))
+            except Exception:
+                pass
             return
         try:
             m.get_eigenvalues()
